@@ -1,14 +1,166 @@
 import MidnightZK.Model.C11.Jubjub
+import MidnightZK.Proofs.C11.Edwards
+import MidnightZK.Proofs.C11.Jubjub
+import MidnightZK.Proofs.C11.Toy
 /-!
 # C11 — curve types implement the group law; encodings are canonical and checked
+
+Property theorems. The models (`Model/C11/*`) are polymorphic in the coordinate field: the
+definitions the theorems speak about are the very definitions the driver `mzk-c11` evaluates
+over `Fp p`, which the correspondence harness compares with the Rust code on every run.
+
+Part 1 — Jubjub (`curves/src/jubjub/curve.rs`, pure Rust): every extended / Niels / doubling /
+negation formula maps to the complete affine twisted-Edwards law, for *all* well-formed inputs
+on the curve (no exceptional cases: completeness is proved from "`d` is a non-square, `-1` is a
+square, `2 ≠ 0`"); the scalar-multiplication loop follows the affine double-and-add schedule;
+`ct_eq` / `is_identity` decide the affine relations they stand for.
 -/
 namespace MidnightZK.C11
-open Jubjub Lean.Grind
+open Jubjub
 
-/-- `CompletedPoint::into_extended` keeps the invariant `T1·T2·Z = U·V`. -/
-theorem into_extended_invariant {F : Type} [CommRing F] (u v z t : F) :
-    let r := intoExtended u v z t
-    r.t1 * r.t2 * r.z = r.u * r.v := by
-  simp only [intoExtended]; grind
+variable {F : Type} [Lean.Grind.Field F]
+
+/-! ## Jubjub: extended-coordinate formulas = affine law -/
+
+/-- Completeness of the `a = -1` twisted-Edwards law: for points on the curve the two
+denominators `1 ± d·u₁u₂v₁v₂` of the affine law never vanish. Hence `add`, `double`, `sub` of
+`jubjub/curve.rs` have no exceptional inputs (identity, `P = Q`, `P = -Q`, small order, …). -/
+theorem edwards_denominators_ne_zero {d : F} (hc : Complete d) {p q : F × F}
+    (hp : EOn d p) (hq : EOn d q) :
+    1 + d * p.1 * q.1 * p.2 * q.2 ≠ 0 ∧ 1 - d * p.1 * q.1 * p.2 * q.2 ≠ 0 :=
+  denoms_ne_zero hc hp hq
+
+example : (1 : Toy.K) + 2 * 2 * 3 * 4 * 2 ≠ 0 ∧ (1 : Toy.K) - 2 * 2 * 3 * 4 * 2 ≠ 0 :=
+  edwards_denominators_ne_zero Toy.complete (p := (2, 4)) (q := (3, 2)) (by unfold EOn; decide)
+    (by unfold EOn; decide)
+
+/-- The affine law is closed on the curve. -/
+theorem edwards_add_closed {d : F} (hc : Complete d) {p q : F × F} (hp : EOn d p) (hq : EOn d q) :
+    EOn d (eAdd (-1) d p q) :=
+  eAdd_on_curve d hp hq (denoms_ne_zero hc hp hq).1 (denoms_ne_zero hc hp hq).2
+
+example : EOn (2 : Toy.K) (eAdd (-1) 2 (2, 4) (3, 2)) :=
+  edwards_add_closed Toy.complete (by unfold EOn; decide) (by unfold EOn; decide)
+
+/-- `&JubjubExtended + &JubjubExtended` (= `self + other.to_niels()`, `EDWARDS_D2 = 2d`): for
+all well-formed points on the curve, in any projective representation, the result is
+well-formed and its affine value is the affine sum. -/
+theorem ext_add_spec {d : F} (hc : Complete d) (P Q : Ext F) (hP : WF P) (hQ : WF Q)
+    (oP : EOn d P.toAffine) (oQ : EOn d Q.toAffine) :
+    WF (P.add (d + d) Q) ∧ (P.add (d + d) Q).toAffine = eAdd (-1) d P.toAffine Q.toAffine :=
+  addENiels_spec d P Q hP hQ hc.two_ne (denoms_ne_zero hc oP oQ).1 (denoms_ne_zero hc oP oQ).2
+
+example : (Toy.P.add (2 + 2) Toy.Q).toAffine = eAdd (-1) 2 Toy.P.toAffine Toy.Q.toAffine :=
+  (ext_add_spec Toy.complete _ _ Toy.P_wf Toy.Q_wf Toy.P_on Toy.Q_on).2
+
+/-- `&JubjubExtended - &JubjubExtended`. -/
+theorem ext_sub_spec {d : F} (hc : Complete d) (P Q : Ext F) (hP : WF P) (hQ : WF Q)
+    (oP : EOn d P.toAffine) (oQ : EOn d Q.toAffine) :
+    WF (P.sub (d + d) Q) ∧
+    (P.sub (d + d) Q).toAffine = eAdd (-1) d P.toAffine (eNeg Q.toAffine) :=
+  subENiels_spec d P Q hP hQ hc.two_ne (denoms_ne_zero hc oP oQ).1 (denoms_ne_zero hc oP oQ).2
+
+example : (Toy.P.sub (2 + 2) Toy.Q).toAffine = eAdd (-1) 2 Toy.P.toAffine (eNeg Toy.Q.toAffine) :=
+  (ext_sub_spec Toy.complete _ _ Toy.P_wf Toy.Q_wf Toy.P_on Toy.Q_on).2
+
+/-- `&JubjubExtended + &JubjubAffineNiels` with `JubjubAffine::to_niels` (mixed addition,
+`JubjubExtended + JubjubAffine`, and — with `P = from(other)` — `JubjubAffine + JubjubAffine`). -/
+theorem niels_add_spec {d : F} (hc : Complete d) (P : Ext F) (q : F × F) (hP : WF P)
+    (oP : EOn d P.toAffine) (oq : EOn d q) :
+    WF (addANiels P (affToNiels (d + d) q)) ∧
+    (addANiels P (affToNiels (d + d) q)).toAffine = eAdd (-1) d P.toAffine q :=
+  addANiels_spec d P q hP hc.two_ne (denoms_ne_zero hc oP oq).1 (denoms_ne_zero hc oP oq).2
+
+example : (addANiels Toy.P (affToNiels (2 + 2) (3, 2))).toAffine = eAdd (-1) 2 Toy.P.toAffine (3, 2) :=
+  (niels_add_spec Toy.complete _ _ Toy.P_wf Toy.P_on (by unfold EOn; decide)).2
+
+/-- `&JubjubExtended - &JubjubAffineNiels`. -/
+theorem niels_sub_spec {d : F} (hc : Complete d) (P : Ext F) (q : F × F) (hP : WF P)
+    (oP : EOn d P.toAffine) (oq : EOn d q) :
+    WF (subANiels P (affToNiels (d + d) q)) ∧
+    (subANiels P (affToNiels (d + d) q)).toAffine = eAdd (-1) d P.toAffine (eNeg q) :=
+  subANiels_spec d P q hP hc.two_ne (denoms_ne_zero hc oP oq).1 (denoms_ne_zero hc oP oq).2
+
+example : (subANiels Toy.P (affToNiels (2 + 2) (3, 2))).toAffine
+    = eAdd (-1) 2 Toy.P.toAffine (eNeg (3, 2)) :=
+  (niels_sub_spec Toy.complete _ _ Toy.P_wf Toy.P_on (by unfold EOn; decide)).2
+
+/-- `JubjubAffine + JubjubAffine` (`JubjubExtended::from(*other) + self`). -/
+theorem affine_add_spec {d : F} (hc : Complete d) (p q : F × F) (op : EOn d p) (oq : EOn d q) :
+    (addANiels (ofAffine q) (affToNiels (d + d) p)).toAffine = eAdd (-1) d q p := by
+  have h := niels_add_spec hc (ofAffine q) p (ofAffine_spec q).1
+    (by rw [(ofAffine_spec q).2]; exact oq) op
+  rw [(ofAffine_spec q).2] at h
+  exact h.2
+
+example : (addANiels (ofAffine (3, 2)) (affToNiels ((2 : Toy.K) + 2) (2, 4))).toAffine
+    = eAdd (-1) 2 (3, 2) (2, 4) :=
+  affine_add_spec Toy.complete _ _ (by unfold EOn; decide) (by unfold EOn; decide)
+
+/-- `JubjubExtended::double`: equals the affine law applied to `(P, P)`; no exceptional point. -/
+theorem ext_double_spec {d : F} (hc : Complete d) (P : Ext F) (hP : WF P) (oP : EOn d P.toAffine) :
+    WF P.double ∧ P.double.toAffine = eAdd (-1) d P.toAffine P.toAffine :=
+  double_spec d P hP oP (denoms_ne_zero hc oP oP).1 (denoms_ne_zero hc oP oP).2
+
+example : Toy.Q.double.toAffine = eAdd (-1) 2 Toy.Q.toAffine Toy.Q.toAffine :=
+  (ext_double_spec Toy.complete _ Toy.Q_wf Toy.Q_on).2
+
+/-- `JubjubExtended::mul_by_cofactor` = three affine doublings. -/
+theorem mul_by_cofactor_spec {d : F} (hc : Complete d) (P : Ext F) (hP : WF P)
+    (oP : EOn d P.toAffine) :
+    let dbl := fun p : F × F => eAdd (-1) d p p
+    WF P.mulByCofactor ∧ P.mulByCofactor.toAffine = dbl (dbl (dbl P.toAffine)) := by
+  intro dbl
+  obtain ⟨w1, e1⟩ := ext_double_spec hc P hP oP
+  have o1 : EOn d P.double.toAffine := by rw [e1]; exact edwards_add_closed hc oP oP
+  obtain ⟨w2, e2⟩ := ext_double_spec hc _ w1 o1
+  have o2 : EOn d P.double.double.toAffine := by rw [e2]; exact edwards_add_closed hc o1 o1
+  obtain ⟨w3, e3⟩ := ext_double_spec hc _ w2 o2
+  refine ⟨w3, ?_⟩
+  simp only [Ext.mulByCofactor, dbl]
+  rw [e3, e2, e1]
+
+example : WF Toy.P.mulByCofactor := (mul_by_cofactor_spec Toy.complete _ Toy.P_wf Toy.P_on).1
+
+/-- `impl Neg for JubjubExtended` (`(-U, V, Z, -T1, T2)`). -/
+theorem ext_neg_spec (P : Ext F) (hP : WF P) : WF P.neg ∧ P.neg.toAffine = eNeg P.toAffine :=
+  neg_spec P hP
+
+example : Toy.Q.neg.toAffine = eNeg Toy.Q.toAffine := (ext_neg_spec _ Toy.Q_wf).2
+
+/-- `From<JubjubAffine> for JubjubExtended` / `to_extended` / `to_curve`. -/
+theorem of_affine_spec (p : F × F) : WF (ofAffine p) ∧ (ofAffine p).toAffine = p := ofAffine_spec p
+
+/-- The loop of `ExtendedNielsPoint::multiply` (hence `JubjubExtended * Fr`, `JubjubSubgroup * Fr`,
+`is_torsion_free`, `multiply_bits`) follows, bit by bit, the affine double-and-add schedule over
+the 252 scalar bits it consumes, and never leaves the curve. (That this schedule computes the
+group-theoretic multiple `k·P` uses associativity of the law, which is not proved here; the
+driver additionally compares with an independent least-significant-bit-first evaluation.) -/
+theorem multiply_spec {d : F} (hc : Complete d) (P : Ext F) (hP : WF P) (oP : EOn d P.toAffine)
+    (k : Nat) :
+    WF (P.multiply (d + d) k) ∧ EOn d (P.multiply (d + d) k).toAffine ∧
+    (P.multiply (d + d) k).toAffine = eMulBits (-1) d (scalarBits k) P.toAffine (0, 1) := by
+  have h := multiplyBits_spec hc P hP oP (scalarBits k) Ext.identity identity_spec.1
+    (by rw [identity_spec.2]; exact EOn_zero d)
+  rw [identity_spec.2] at h
+  exact h
+
+example : WF (Toy.P.multiply (2 + 2) 5) := (multiply_spec Toy.complete _ Toy.P_wf Toy.P_on 5).1
+
+/-- `impl ConstantTimeEq for JubjubExtended` (and `PartialEq`): the cross-multiplied test is
+true exactly when the affine values coincide. -/
+theorem ext_ct_eq_iff_affine_eq [DecidableEq F] (P Q : Ext F) (hP : P.z ≠ 0) (hQ : Q.z ≠ 0) :
+    P.ctEq Q = true ↔ P.toAffine = Q.toAffine := ctEq_iff P Q hP hQ
+
+example : Toy.P.ctEq Toy.P = true :=
+  (ext_ct_eq_iff_affine_eq Toy.P Toy.P Toy.P_wf.z_ne Toy.P_wf.z_ne).2 rfl
+
+/-- `JubjubExtended::is_identity` (`u == 0 & v == z`) recognises exactly the representations of
+the neutral point `(0, 1)`. -/
+theorem ext_is_identity_iff [DecidableEq F] (P : Ext F) (hP : P.z ≠ 0) :
+    P.isIdentity = true ↔ P.toAffine = (0, 1) := isIdentity_iff P hP
+
+example : (Ext.identity : Ext Toy.K).isIdentity = true :=
+  (ext_is_identity_iff _ identity_spec.1.z_ne).2 identity_spec.2
 
 end MidnightZK.C11
